@@ -51,6 +51,20 @@ def scan_function(q: str, fn: ast.FunctionDef, file: str, rid: str, module_conta
                           f"{short} is memoised per object ({memo[0]}): lists and charts are edited in place (generated column "
                           f"setters, slot assignment swaps the frame of the same list object), so a later call returns the value "
                           f"computed before the edit", construct=f"@{memo[0]} {short}"))
+    # instance-dict memo: a container kept under a fixed name in `self.__dict__` / `vars(self)` that the method both fills and answers
+    # from — the same hidden state as `self._cache`, spelled so that no attribute of that name is ever declared
+    if first == "self":
+        for n in ast.walk(fn):
+            if isinstance(n, ast.Call) and isinstance(n.func, ast.Attribute) and n.func.attr in ("setdefault", "get") and \
+                    unparse(n.func.value) in ("self.__dict__", "vars(self)") and n.args and isinstance(n.args[0], ast.Constant):
+                returned = any(isinstance(r, ast.Return) and r.value is not None for r in ast.walk(fn))
+                if returned and fn.name not in ("__init__", "__post_init__", "__getattr__", "__setstate__", "__getstate__"):
+                    out.append(R.viol(rid, f"{short}:instance-dict-memo", file, n.lineno,
+                                      f"{short} keeps results in the object's dict under {n.args[0].value!r} and answers later calls from it: "
+                                      f"lists are edited in place (and through other stackers) between two calls, so the object handed out "
+                                      f"again still holds the values of the first call — its next write puts them back",
+                                      construct=f"{short}: self.__dict__[{n.args[0].value!r}] used as a cache"))
+                    break
     is_getter = "property" in decos
     # method memo: the method stores self.A and, on another path, returns what it finds in self.A
     if first == "self" and not is_getter and fn.name not in ("__init__", "__post_init__", "__setattr__") and not any(d.endswith(".setter") for d in decos):
@@ -271,6 +285,13 @@ class K:
         if self._t is None:
             self._t = self.a + self.b
         return self._t
+    def s(self, key=None):
+        kept = self.__dict__.setdefault("_kept", {})
+        if key not in kept:
+            kept[key] = self.build(key)
+        return kept[key]
+    def u(self, key=None):
+        return self.build(key)
 '''
 
 
@@ -280,4 +301,7 @@ def control() -> bool:
     fs = {n.name: n for n in k.body if isinstance(n, ast.FunctionDef)}
     a = scan_function("ctl.K.f", fs["f"], "ctl", "X")
     b = scan_function("ctl.K.t", fs["t"], "ctl", "X")
-    return any("class-memo" in i.key for i in a) and any("getter-memo" in i.key for i in b)
+    c = scan_function("ctl.K.s", fs["s"], "ctl", "X")
+    d = scan_function("ctl.K.u", fs["u"], "ctl", "X")
+    return any("class-memo" in i.key for i in a) and any("getter-memo" in i.key for i in b) and \
+        any("instance-dict-memo" in i.key for i in c) and not d
